@@ -97,6 +97,9 @@ type Case struct {
 	Cut     int             `json:"cut"` // crash cut after this many adapter calls (0 = none)
 	Avoid   map[string]bool `json:"avoid,omitempty"`
 	Note    string          `json:"note,omitempty"`
+	// C11: schedule and fault plan of the recovery episodes
+	RecSched  *Sched  `json:"recovery_schedule,omitempty"`
+	RecFaults []Fault `json:"recovery_faults,omitempty"`
 }
 
 func (c *Case) JSON() []byte {
